@@ -114,8 +114,25 @@ def mutate(r, g, insts, per_class=2):
         dup = {"id": iid, "complex": False, "parts": [("ITEM", [("str", "dup")])], "toks": ["ITEM", "(", "'dup'", ")"], "dup": True}
         cands.append(("duplicate_id", "#%d twice" % iid, insts + [dup], None, False))
         # an own class when the last parameter is $ (the reader treats what follows a $ separately)
-        cands.append(("unterminated_after_null" if len(toks) >= 2 and toks[-2] == "$" else "unterminated_instance", "missing );",
+        # one class per kind of last parameter (the reader of that kind meets the text of the next instance)
+        lastk = "complex"
+        if not inst["complex"]:
+            la = popgen.all_attrs(inst["parts"][0][0])
+            lastk = kind_of(la[-1][2]) if la else "none"
+            if len(toks) >= 2 and toks[-2] == "$":
+                lastk = "null"
+            elif lastk == "KSelect" and len(toks) >= 2 and toks[-2].startswith("#"):
+                lastk = "KSelect_ref"
+        cands.append(("unterminated_after_null" if lastk == "null" else "unterminated_instance", "missing ); after %s" % lastk,
                       with_toks(toks[:-1], noterm=True), iid, True))
+        # the same fault followed by an instance whose text reaches a ')' before any ',' (the reader of the last
+        # parameter may then take the following record for the end of this one)
+        extra = {"id": max(i["id"] for i in insts) + 1, "complex": False, "parts": [("ITEM", [("str", "x")])], "toks": ["ITEM", "(", "'x'", ")"]}
+        broken = dict(inst)
+        broken["toks"] = toks[:-1]
+        broken["noterm"] = True
+        cands.append(("unterminated_after_null" if lastk == "null" else "unterminated_instance", "missing ); after %s, one-parameter instance next" % lastk,
+                      insts[:idx] + [broken, extra] + insts[idx + 1:], iid, True))
         for k, t in enumerate(toks):
             if t.startswith("'") and len(t) >= 2:
                 cands.append(("unterminated_string", "missing closing quote", with_toks(toks[:k] + [t[:-1]] + toks[k + 1:]), iid, True))
@@ -124,6 +141,8 @@ def mutate(r, g, insts, per_class=2):
     out, seen = [], {}
     for c in cands:
         key = c[0]
+        if c[0] in ("unterminated_instance", "unterminated_after_null"):
+            key = c[0] + " " + c[1]
         if " := " in c[1] and c[0] in ("wrong_kind", "undeclared_enum_item", "dangling_reference", "select_outside_list"):
             key = c[0] + " " + c[1].split(" (", 1)[1]        # "<kind>) := <bad value>", optional and required apart
         if seen.get(key, 0) < per_class:
